@@ -1,7 +1,7 @@
 #![allow(dead_code)]
 //! Shared helpers: canonical rendering, transcript writer, panic capture, PRNG.
 use std::io::{BufWriter, Write};
-use std::panic::{catch_unwind, UnwindSafe};
+use std::panic::catch_unwind;
 
 pub fn hex(b: &[u8]) -> String {
     if b.is_empty() {
@@ -71,8 +71,8 @@ pub fn b(x: bool) -> &'static str {
 }
 
 /// run `f`, mapping a panic to the token `panic`
-pub fn catch<F: FnOnce() -> String + UnwindSafe>(f: F) -> String {
-    match catch_unwind(f) {
+pub fn catch<F: FnOnce() -> String>(f: F) -> String {
+    match catch_unwind(std::panic::AssertUnwindSafe(f)) {
         Ok(s) => s,
         Err(_) => "panic".to_string(),
     }
